@@ -37,13 +37,14 @@ OBLIGATIONS = {
     "multi_input": "more than one input selected", "segwit_sender": "a segwit sender kind signed", "legacy_sender": "a legacy sender kind signed",
     "flag_not_all": "a sighash flag other than ALL", "nondefault_version_locktime": "version 2 or non-zero locktime",
     "change_output": "a change output at or above dust", "change_near_dust": "a remainder of a few hundred / few thousand sat (either side of the 1000-sat dust threshold, below a non-default fee)", "subdust_change": "change below the dust threshold dropped",
-    "raw_script_recipient": "a raw script recipient", "multisig_2_of_3": "2-of-3 multisig sender",
+    "raw_script_recipient": "a raw script recipient", "shared_txid": "several UTXOs that are outputs of the same transaction",
+    "recipient_equals_change": "recipient script identical to the change script with change above dust", "multisig_2_of_3": "2-of-3 multisig sender",
 }
 BOUND = {"quick": "small curve d<=2; secp256k1 d<=1", "thorough": "small curve d<=3; secp256k1 d<=2"}
 AMOUNTS = ["50.00000000", "0.00001000", "0.10000000", "0.29000000", "1.10000000", "2.30000000", "0.07000000", "20999999.97690000",
            "0.00000001", "0.30000001", "0.00002000", "8.99999999"]
 SENDERS = ["p2pkh-c", "p2pkh-u", "p2pk", "multisig", "p2sh", "p2wpkh", "p2wsh", "p2sh-p2wpkh", "p2sh-p2wsh"]
-RECIPS = ["p2pkh", "pubkey", "p2sh", "v0-20", "v0-32", "v1-32", "raw"]
+RECIPS = ["p2pkh", "pubkey", "p2sh", "v0-20", "v0-32", "v1-32", "raw", "self"]
 FLAGS = [0x01, 0x02, 0x03, 0x81, 0x82, 0x83]
 
 
@@ -52,7 +53,7 @@ def dims(tier):
         "n_utxo": [1, 2, 3] + ([6] if tier == "thorough" else []),
         "vout0": [0, 1, 5], "amt": list(range(len(AMOUNTS))),
         "sender": SENDERS, "mn": [[1, 1], [1, 2], [2, 2], [2, 3]],
-        "recip": RECIPS, "change": ["none", "other"],
+        "recip": RECIPS, "change": ["none", "other", "recipient"], "txids": ["distinct", "shared"],
         "fraction": [1.0, 0.5, 0.1, 0.999, 0.00000003, 0.3, 0.999999, 0.9999999],
         "fee": [1000, 0, 12345], "version": [1, 2], "locktime": [0, 500000],
         "flag": FLAGS, "signed": [True, False],
@@ -143,13 +144,21 @@ def build(C, seed, a):
         "v0-32": (B32.encode_segwit("bcrt", 0, r32), b"\x00\x20" + r32),
         "v1-32": (B32.encode_segwit("bcrt", 1, r32), b"\x51\x20" + r32),
         "raw": (b"\x51" + SR.push(rp) + b"\x51\xae", b"\x51" + SR.push(rp) + b"\x51\xae"),
+        "self": (sender, spk),            # paying oneself: recipient script == sender script (== default change script)
     }[a["recip"]]
     ch = h160(b"change" + rp)
-    change_addr, change_spk = (None, spk) if a["change"] == "none" else (B58.check_encode(b"\x6f" + ch), b"\x76\xa9\x14" + ch + b"\x88\xac")
+    if a["change"] == "none":
+        change_addr, change_spk = None, spk
+    elif a["change"] == "recipient":      # change address equal to the recipient
+        change_addr, change_spk = recip, rspk
+    else:
+        change_addr, change_spk = B58.check_encode(b"\x6f" + ch), b"\x76\xa9\x14" + ch + b"\x88\xac"
     utxos = []
     for j in range(a["n_utxo"]):
         amt = AMOUNTS[(a["amt"] + 3 * j) % len(AMOUNTS)]
-        utxos.append({"txid": filler(seed, f"c16-txid{j}", 32).hex(), "vout": a["vout0"] if j == 0 else (j * 2) % 5, "amount": amt,
+        shared = a.get("txids") == "shared"         # several outputs of ONE transaction (same txid, different vout)
+        utxos.append({"txid": filler(seed, "c16-txid0" if shared else f"c16-txid{j}", 32).hex(),
+                      "vout": (a["vout0"] + j) if shared else (a["vout0"] if j == 0 else (j * 2) % 5), "amount": amt,
                       "scriptPubKey": spk.hex()})
     return {"sender": sender, "spk": spk, "wifs": wifs, "recip": recip, "rspk": rspk, "change_addr": change_addr, "change_spk": change_spk,
             "utxos": utxos}
@@ -362,6 +371,10 @@ def run_job(job):
             acc.ob("subdust_change")
         if a["recip"] == "raw":
             acc.ob("raw_script_recipient")
+        if a.get("txids") == "shared" and a["n_utxo"] > 1:
+            acc.ob("shared_txid")
+        if (a["recip"] == "self" and a["change"] == "none" or a["change"] == "recipient") and a["fraction"] in (0.5, 0.1, 0.3):
+            acc.ob("recipient_equals_change")
         if a["mn"] == [2, 3]:
             acc.ob("multisig_2_of_3")
         case = {"seed": seed, "a": a}
